@@ -145,6 +145,7 @@ CLI_TEMPLATES = [
     ("%Pad(1, left){{%Count({a})}}-%Name()", 1),
     ("%C()-%Name()", 1),           # through an alias  C=%Count(args)
     ("%C()-%C()-%Name()", 2),      # the alias twice: two counters, like the tag written twice
+    ("%Count()-%Count()-%Name()", 2),   # the tag twice without arguments (its defaults): still two counters
     ("x|%Default(%Count({a}))|%Upper()|%Remove('X') -%Name()", None),
 ]
 
@@ -154,11 +155,11 @@ def gen_count_cli(rng, n, tier):
         roots = ["in"] if rng.random() < 0.5 else ["in", "in2"]
         spec = gen.gen_tree(rng, roots=roots, links=False, hidden=False, max_entries=7,
                             names=["a", "b", "c", "d", "e", "f", "g"])
-        start = rng.choice([0, 1, 7, 98])
+        start = rng.choice([0, 1, 7, 98, 10 ** 15 - 2, 10 ** 16, 10 ** 20 + 7, 2 ** 63 - 1])
         step = rng.choice([1, 2, 10])
         width = rng.choice([0, 0, 2, 4])
         common = rng.random() < 0.3
-        tmpl_i = rng.randrange(5)
+        tmpl_i = rng.randrange(6)
         yield {"spec": spec, "roots": roots, "start": start, "step": step, "width": width, "common": common,
                "template": tmpl_i, "recursive": rng.random() < 0.7, "invert": rng.random() < 0.3,
                "verbose": rng.random() < 0.3}
@@ -192,6 +193,9 @@ def oracle_count_cli(case, obs):
     if obs["rc"] != 0:
         return f"exit {obs['rc']}: {obs['err']}"
     start, step, width = case["start"], case["step"], case["width"]
+    per_dir_only = False
+    if "{a}" not in CLI_TEMPLATES[case["template"]][0] and "%C()" not in CLI_TEMPLATES[case["template"]][0]:
+        start, step, width, per_dir_only = 0, 1, 0, True      # the tag's documented defaults
     ncount = CLI_TEMPLATES[case["template"]][1]
     # which files were considered: those that changed name
     renamed = [f for f in obs["after"] if f not in obs["before"]]
@@ -208,7 +212,7 @@ def oracle_count_cli(case, obs):
             return f"leading zero without width in {name!r}"
         if len(set(nums)) != 1:
             return f"two Count tags of one template disagree in {name!r}"
-        groups.setdefault("*" if case["common"] else d, []).append(int(nums[0]))
+        groups.setdefault("*" if case["common"] and not per_dir_only else d, []).append(int(nums[0]))
     if len(renamed) != len(obs["events"]):
         return "number of renamed files differs from the number of reported renames"
     for d, values in groups.items():
